@@ -559,12 +559,29 @@ pub fn history(index: u64, mut rng: Rng, cfg: &HistCfg, focus: &str) -> Outcome 
                 if live.is_empty() {
                     continue;
                 }
-                let ss = rng.subset(&live, 1, 3);
+                // half of the extensions target one deadline with several partitions: one declaration per
+                // partition in a single message, usually with a common new expiration
+                let multi: Vec<usize> = pre.deadlines.iter().enumerate().filter(|(_, d)| d.partitions.iter().filter(|p| !p.active().is_empty()).count() >= 2).map(|x| x.0).collect();
+                let is_multi = !multi.is_empty() && rng.chance(1, 2);
+                let (ss, common): (Vec<u64>, Option<ChainEpoch>) = if is_multi {
+                    let di = *rng.pick(&multi);
+                    let mut ss = vec![];
+                    for p in &pre.deadlines[di].partitions {
+                        let act: Vec<u64> = p.active().into_iter().collect();
+                        if !act.is_empty() && rng.chance(5, 6) {
+                            ss.extend(rng.subset(&act, 1, 2));
+                        }
+                    }
+                    let cur = ss.iter().filter_map(|s| pre.sectors.get(s)).map(|s| s.expiration).max().unwrap_or(epoch);
+                    o.count("extend_multi_partition_messages");
+                    (ss, if rng.chance(4, 5) { Some(cur + rng.range(1, 120) * DAY) } else { None })
+                } else {
+                    (rng.subset(&live, 1, 3), if rng.chance(1, 2) { Some(epoch + rng.range(200, 500) * DAY) } else { None })
+                };
                 if ss.is_empty() {
                     continue;
                 }
-                let common: Option<ChainEpoch> = if rng.chance(1, 2) { Some(epoch + rng.range(200, 500) * DAY) } else { None };
-                let decls: Vec<(u64, u64, Vec<u64>, ChainEpoch)> = group(&pre, &ss, &mut rng, true)
+                let decls: Vec<(u64, u64, Vec<u64>, ChainEpoch)> = group(&pre, &ss, &mut rng, !is_multi)
                     .into_iter()
                     .map(|(d, p, v)| {
                         if let Some(c) = common {
@@ -580,6 +597,9 @@ pub fn history(index: u64, mut rng: Rng, cfg: &HistCfg, focus: &str) -> Outcome 
                     })
                     .collect();
                 let (r, i) = extend_sectors(&w.v, &m, &caller, &decls);
+                if r.code.is_success() && decls.len() >= 2 && decls.iter().any(|a| decls.iter().any(|b| a.0 == b.0 && a.1 != b.1 && a.3 == b.3)) {
+                    o.count("extend_accepted_two_partitions_same_deadline_same_expiration");
+                }
                 ("extend", r, i)
             }
             7 => {
